@@ -28,6 +28,8 @@ PROOF_FILES = ["theories/Props/C03.v", "theories/Proofs/SupportA.v", "theories/P
 FUEL = 100000
 DIR_CLASSES = ["random", "random", "axis", "sign", "sign", "pow2", "pow2", "shape_axis", "shape_orth"]
 EPS10 = Fr(10) / Fr(2 ** 52)
+CHUNK_TIMEOUT = 240
+CASE_TIMEOUT = 45
 
 TRACE_SCOPE = {
     "geometry.py": ["support_function_cylinder", "support_function_capsule", "support_function_ellipsoid",
@@ -139,9 +141,51 @@ def gen_case(rng, kind, stream):
     return dict(shape=sh, margin=margin, dirs=[x["d"] for x in dirs], dir_cls=[x["cls"] for x in dirs])
 
 
+def face_normal_case(rng):
+    """The class of finding F-M1 (hang of the hill climb before /repo 7cb1be3): a small polytope of
+    radius 10..100 in general position, queried along (+-) the floating-point normal of one of its
+    faces - the face's vertices are equally extreme up to rounding - from EVERY cached start vertex."""
+    import numpy as np
+    from scipy.spatial import ConvexHull
+    while True:
+        n = rng.choice([4, 4, 5, 6, 8, 12])
+        s = 10 ** rng.uniform(1, 2)
+        vs = [[rng.uniform(-1, 1) * s for _ in range(3)] for _ in range(n)]
+        try:
+            hull = ConvexHull(np.array(vs))
+        except Exception:
+            continue
+        break
+    V = np.array(vs)
+    ctr = V.mean(axis=0)
+    tris = []
+    for t in hull.simplices.tolist():
+        a, b, c = V[t[0]], V[t[1]], V[t[2]]
+        nrm = np.cross(b - a, c - a)
+        if float(nrm @ ((a + b + c) / 3 - ctr)) < 0:
+            t = [t[0], t[2], t[1]]
+        tris.append([int(x) for x in t])
+    Rm = sc.gen_rotation(rng, "random")
+    t = sc.gen_translation(rng, "random")
+    sh = dict(kind="mesh", stream="face_normal", R=Rm, t=t, vs=vs, triangles=tris)
+    dirs, cls = [], []
+    for tr in rng.sample(tris, min(3, len(tris))):
+        a, b, c = V[tr[0]], V[tr[1]], V[tr[2]]
+        nrm = np.cross(b - a, c - a)
+        w = [float(x) for x in (np.array(Rm) @ nrm)]
+        u = [x / sc.normf(w) for x in w]
+        for name, d in (("face_normal", w), ("face_normal_unit", u), ("face_normal_neg", [-x for x in u])):
+            dirs.append(d)
+            cls.append(name)
+        e = b - a                                    # along an edge: orthogonal to ... nothing special, but
+        dirs.append([float(x) for x in (np.array(Rm) @ np.cross(nrm, e))])   # in the face plane, orthogonal to an edge
+        cls.append("edge_normal_in_face")
+    return dict(shape=sh, margin=None, dirs=dirs, dir_cls=cls, sweep=True)
+
+
 def gen_cases(rng, tier):
     per = 8 if tier == "quick" else 80
-    cases = []
+    cases = [face_normal_case(rng) for _ in range(per)]
     for kind in sc.KINDS:
         for stream, share in (("random", 1.0), ("lattice", 0.75), ("exact", 0.75)):
             n = int(per * share * (2 if kind == "mesh" else 1))
@@ -163,13 +207,18 @@ def coq_case_expr(case, res):
                         for key, val in res["connections"])
         shc = sc.clist(sc.cnat(x) for x in res["shortcuts"])
         ds = sc.clist(sc.cv(d) for d in case["dirs"])
-        seq = f"mql (mesh_queries {FUEL} {T} {vs} {conn} {shc} {sc.cnat(res['first_idx0'])} {ds})"
-        fresh = [f"mql (mesh_queries {FUEL} {T} {vs} {conn} {shc} {sc.cnat(res['first_idx0'])} [{sc.cv(d)}])"
-                 for d in case["dirs"]]
-        fv = f"ov3l (first_vertex_mesh {T} {vs})"
-        ce = f"v3l (center_mesh {T} {vs} {cm.fhex(float(len(sh['vs'])))})"
-        sh_model = f"(match shortcut_connections {vs} with Some l => l | None => [] end)"
-        return f"({seq}, {sc.clist(fresh)}, {fv}, {ce}, {sh_model})"
+        i0 = sc.cnat(res["first_idx0"])
+        seq = f"mql (mesh_queries {FUEL} T vs conn shc {i0} ds)"
+        fresh = f"map (fun d => mql (mesh_queries {FUEL} T vs conn shc {i0} [d])) ds"
+        fv = "ov3l (first_vertex_mesh T vs)"
+        ce = f"v3l (center_mesh T vs {cm.fhex(float(len(sh['vs'])))})"
+        sh_model = "(match shortcut_connections vs with Some l => l | None => [] end)"
+        sweep = "[]"
+        if case.get("sweep"):
+            starts = sc.clist(sc.cnat(i) for i in range(len(sh["vs"])))
+            sweep = f"map (fun d => map (fun i => mql (mesh_queries {FUEL} T vs conn shc i [d])) {starts}) ds"
+        return (f"let T := {T} in let vs := {vs} in let conn := {conn} in let shc := {shc} in let ds := {ds} in "
+                f"({seq}, {fresh}, {fv}, {ce}, {sh_model}, {sweep})")
     items = []
     for d in case["dirs"]:
         if m is None:
@@ -309,6 +358,9 @@ def judge_case(case, r):
     if sh["kind"] == "box":
         for i, (d, s) in enumerate(zip(case["dirs"], r["free_box"])):
             fails += judge_point(sh, None, d, s, L, f"geometry.support_function_box(dirs[{i}])")
+    for i, (d, row) in enumerate(zip(case["dirs"], r.get("sweep") or [])):
+        for start, (idx, s) in enumerate(row):
+            fails += judge_point(sh, case["margin"], d, s, L, f"support_function(dirs[{i}]) with cached start vertex {start}")
     fails += judge_member(sh, r["first_vertex"], L, "first_vertex")
     fails += judge_member(sh, r["center"], L, "center")
     return fails
@@ -316,31 +368,36 @@ def judge_case(case, r):
 
 # ---------------------------------------------------------------- Coq-proven certificates
 def cert_jobs(case, r):
-    """[(label, Coq boolean expression)] for every answer of the case: support_cert for the queries,
-    in_shape_tol for first_vertex() / center() (of the wrapped shape: Margin forwards them)."""
+    """(labels, one Coq expression of type list bool) for the answers of the case: support_cert for the
+    queries, in_shape_tol for first_vertex() / center() (of the wrapped shape: Margin forwards them).
+    The shape expression is bound once per case."""
+    from .. import narrow
     sh = case["shape"]
     if "sup" not in r:
-        return []
+        return [], None
     m = case["margin"]
     L = sc.shape_L(sh, m or 0.0)
-    tau = Fr(1e-9) * Fr(L)
+    tau = narrow._q(Fr(1e-9) * Fr(L))
     spec = sc.to_spec(sh, m)
     bare = sc.to_spec(sh, None)
-    jobs = []
-    groups = [("sup", r["sup"], spec)]
+    labels, items = [], []
+    groups = [("sup", r["sup"], spec, "S")]
     if sh["kind"] == "mesh":
-        groups.append(("fresh", r["fresh"], spec))
+        groups.append(("fresh", r["fresh"], spec, "S"))
     if sh["kind"] == "box":
-        groups.append(("free_box", r["free_box"], bare))
-    for name, answers, sp in groups:
+        groups.append(("free_box", r["free_box"], bare, "B"))
+    for name, answers, sp, var in groups:
         for i, (d, s) in enumerate(zip(case["dirs"], answers)):
             if sc.finite(s) and len(s) == 3:
-                jobs.append(((name, i), sc.support_cert_expr(sp, s, d, tau)))
+                labels.append((name, i))
+                items.append(sc.support_cert_item(var, sp, s, d, tau))
     for name in ("first_vertex", "center"):
         p = r[name]
         if sc.finite(p) and len(p) == 3:
-            jobs.append(((name, 0), sc.member_tol_expr(bare, p, tau)))
-    return jobs
+            labels.append((name, 0))
+            items.append(f"in_shape_tol B {narrow.wit_expr(bare, p)} {narrow.vq(p)} {tau}")
+    expr = f"let S := {narrow.sh_expr(spec)} in let B := {narrow.sh_expr(bare)} in [{'; '.join(items)}]"
+    return labels, expr
 
 
 # ---------------------------------------------------------------- the hypothesis of the mesh theorem, per input
@@ -398,7 +455,18 @@ def compare_case(case, r, m, stats):
     L = sc.shape_L(sh, case["margin"] or 0.0)
     tol = 1e-9 * L
     if sh["kind"] == "mesh":
-        seq, fresh, fv, ce, shortcuts_model = m
+        seq, fresh, fv, ce, shortcuts_model, sweep_model = m
+        for i, (d, row_m, row_i) in enumerate(zip(case["dirs"], sweep_model, r.get("sweep") or [])):
+            for start, (qm, (iidx, ip)) in enumerate(zip(row_m, row_i)):
+                if not qm:
+                    diffs.append(f"sweep[{i}][start {start}]: model stopped with an error")
+                    continue
+                midx, mp = qm[0]
+                if not sc.finite(ip) or abs(sc.dotf(mp, d) - sc.dotf(ip, d)) > tol:
+                    diffs.append(f"sweep[{i}][start {start}]: support value model {sc.dotf(mp, d)!r} vs implementation {ip} (d={d})")
+                elif unique_margin(sh, d) and midx != iidx:
+                    diffs.append(f"sweep[{i}][start {start}]: vertex index model {midx} vs implementation {iidx} (d={d})")
+            stats["sweep_queries"] = stats.get("sweep_queries", 0) + len(row_i)
         if shortcuts_model != r["shortcuts"]:
             diffs.append(f"mesh shortcut_connections: model {shortcuts_model} vs implementation {r['shortcuts']}")
         model_pts = [add_margin(p, d, case["margin"]) for (_, p), d in zip(seq, case["dirs"])]
@@ -447,7 +515,9 @@ def compare_case(case, r, m, stats):
 def run_impl_cases(cases, tag, hits=None):
     nw = min(cm.NCPU, max(1, len(cases) // 25))
     chunks = [cases[i::nw] for i in range(nw)]
-    res = cm.run_impl_parallel(PID, "c03", [dict(cases=c) for c in chunks], timeout=900, tag=tag)
+    # watchdog: a worker that hangs (a non-terminating compiled loop cannot be interrupted from inside)
+    # is killed after CHUNK_TIMEOUT; its cases are then re-run one per process with CASE_TIMEOUT each
+    res = cm.run_impl_parallel(PID, "c03", [dict(cases=c) for c in chunks], timeout=CHUNK_TIMEOUT, tag=tag)
     out = [None] * len(cases)
     consts = None
 
@@ -463,7 +533,7 @@ def run_impl_cases(cases, tag, hits=None):
             for i, x in zip(idxs, rr["result"]["results"]):
                 out[i] = x
         else:
-            singles = cm.run_impl_parallel(PID, "c03", [dict(cases=[c]) for c in ch], timeout=120, tag=tag + "_iso")
+            singles = cm.run_impl_parallel(PID, "c03", [dict(cases=[c]) for c in ch], timeout=CASE_TIMEOUT, tag=tag + "_iso")
             for i, s in zip(idxs, singles):
                 if s["status"] == "ok":
                     out[i] = s["result"]["results"][0]
@@ -561,28 +631,34 @@ def run(tier, seed, replay=None):
         if "build_exc" in r or "exc" in r:
             continue
         try:
-            for lab, e in cert_jobs(c, r):
-                jobs.append((ci, lab, e))
+            labels, e = cert_jobs(c, r)
+            if labels:
+                jobs.append((ci, labels, e))
         except Exception as e:  # witness construction is untrusted and may fail
             R.notes.append(dict(certificate_construction_failed=f"{type(e).__name__}: {str(e)[:200]}", case_hash=cm.canon_hash(c)))
-    cert = dict(submitted=len(jobs), accepted=0, rejected_but_oracle_accepts=0, rejected_and_oracle_rejects=0)
+    cert = dict(submitted=sum(len(l) for _, l, _ in jobs), accepted=0, rejected_but_oracle_accepts=0, rejected_and_oracle_rejects=0)
     try:
-        verdicts = sc.coq_bools(PID, [e for _, _, e in jobs], tag="cert")
+        outs = cm.coq_eval_lines(PID, sc.CERT_HEADER, [e for _, _, e in jobs], tag="cert",
+                                 per_file=max(2, len(jobs) // (cm.NCPU * 2) + 1), timeout=1500)
         rej = {}
-        for (ci, lab, _), ok in zip(jobs, verdicts):
-            if ok:
-                cert["accepted"] += 1
-            elif fails_by_case.get(ci):
-                cert["rejected_and_oracle_rejects"] += 1
-            else:
-                cert["rejected_but_oracle_accepts"] += 1
-                k = cases[ci]["shape"]["kind"]
-                rej[k] = rej.get(k, 0) + 1
+        for (ci, labels, _), o in zip(jobs, outs):
+            verdicts = [x.strip() == "true" for x in o.strip().strip("[]").split(";")] if o.strip() != "[]" else []
+            if len(verdicts) != len(labels):
+                raise RuntimeError(f"unexpected checker output {o[:200]}")
+            for ok in verdicts:
+                if ok:
+                    cert["accepted"] += 1
+                elif fails_by_case.get(ci):
+                    cert["rejected_and_oracle_rejects"] += 1
+                else:
+                    cert["rejected_but_oracle_accepts"] += 1
+                    k = cases[ci]["shape"]["kind"]
+                    rej[k] = rej.get(k, 0) + 1
         if rej:
             cert["inconclusive_by_kind"] = rej
     except RuntimeError as e:
         R.notes.append(dict(certificate_evaluation_failed=str(e)[:500]))
-    cert["theorem"] = "Checker/ShapesCert.v support_cert_sound, Checker/Shapes.v in_shape_tol_sound"
+    cert["theorem"] = "Checker/ShapesCert.v support_cert_sound / support_cert_scaled_sound, Checker/Shapes.v in_shape_tol_sound"
     R.cov["certificates"] = cert
 
     # model on the same cases
@@ -609,6 +685,7 @@ def run(tier, seed, replay=None):
     R.cov["traces_validated_against_impl"] = len(idx) - ndiff
     R.cov["correspondence_disagreements"] = ndiff
     R.cov["queries_compared_exactly"] = stats.get("exact_queries", 0)
+    R.cov["start_vertex_sweep_queries"] = stats.get("sweep_queries", 0)
 
     # hypothesis of the partial mesh theorem, evaluated exactly on this run's meshes
     lmg = dict(pairs=0, holds_with_delta_0=0, holds_within_tolerance=0, worst_delta_over_L=0.0, unused_vertex_cases=0)
